@@ -33,11 +33,13 @@ pub struct Src<'a, E> {
     unfused: bool,
     policy: u32,
     extra: usize,
+    n: usize,
+    total: usize,
     _p: PhantomData<E>,
 }
 
-pub const N_HINT_POLICIES: u32 = 7;
-pub const HINT_NAMES: [&str; 7] = [
+pub const N_HINT_POLICIES: u32 = 8;
+pub const HINT_NAMES: [&str; 8] = [
     "exact",
     "absent",
     "loose-truthful",
@@ -45,10 +47,18 @@ pub const HINT_NAMES: [&str; 7] = [
     "lying-high-lower",
     "zero-to-max",
     "lower-only",
+    "claims-exactly-N",
 ];
 
-pub fn hint(policy: u32, x: usize, r: usize) -> (usize, Option<usize>) {
+/// `r` = items left before the first None, `n` = the array length the collector wants,
+/// `total` = items the source had at the start
+pub fn hint(policy: u32, x: usize, r: usize, n: usize, total: usize) -> (usize, Option<usize>) {
     match policy % N_HINT_POLICIES {
+        // claims exactly N whatever it holds (an ExactSizeIterator-looking liar): N minus what it already gave
+        7 => {
+            let given = total - r.min(total);
+            (n.saturating_sub(given), Some(n.saturating_sub(given)))
+        }
         0 => (r, Some(r)),
         1 => (0, None),
         2 => (r.saturating_sub(x), Some(r + x)),
@@ -85,7 +95,7 @@ impl<'a, E: Elem> Iterator for Src<'a, E> {
         }
     }
     fn size_hint(&self) -> (usize, Option<usize>) {
-        hint(self.policy, self.extra, self.remaining)
+        hint(self.policy, self.extra, self.remaining, self.n, self.total)
     }
 }
 
@@ -127,7 +137,7 @@ impl<E: Elem> World<E> {
         let unfused = a[3] & 1 == 1;
         let entry = (a[3] >> 1) % 6;
         let extra = a[4] as usize % 4;
-        let (lo, hi) = hint(policy, extra, c);
+        let (lo, hi) = hint(policy, extra, c, n, c);
         let rules_out = lo > n || hi.map_or(false, |h| h < n);
         let expect_ok = !rules_out && c == n;
         let mut st = SrcStats {
@@ -137,7 +147,7 @@ impl<E: Elem> World<E> {
             none_seen: false,
         };
         let r = with_len!(li; N => {
-            let src = Src::<E> { st: &mut st, remaining: c, unfused, policy, extra, _p: PhantomData };
+            let src = Src::<E> { st: &mut st, remaining: c, unfused, policy, extra, n, total: c, _p: PhantomData };
             lib(move || match entry {
                 0 => match GenericArray::<E, N>::try_from_iter(src) { Ok(x) => Got::Arr(Arr::from(x)), Err(_) => Got::LenErr },
                 1 => Got::Arr(Arr::from(<GenericArray<E, N> as core::iter::FromIterator<E>>::from_iter(src))),
